@@ -30,8 +30,21 @@ ENGINE_OFFSET = {'H': 0, 'N': 10 ** 9, 'T': 2 * 10 ** 9}
 SWEEP_CAP = {'quick': 4, 'thorough': 2500, 'full': 0}
 
 
+_PENDING = []        # (key string, raw replay path) of violations found but not yet minimised / reported
+_DEADLINE = [None]   # perf_counter time at which minimisation must stop so that the report fits the wall limit
+
+
 def _watchdog(seconds, what):
+    _DEADLINE[0] = _perf() + 0.6 * seconds
+
     def bark():
+        if _PENDING:
+            # violations were found; minimisation / fresh-process verification did not fit: report them as found
+            for ks, path in _PENDING:
+                sys.stdout.write('VIOLATION property=%s replay=%s\n  (%s; not minimised: %s exceeded %ds wall)\n'
+                                 % (PROPERTY, path, ks, what, seconds))
+            sys.stdout.flush()
+            os._exit(1)
         sys.stdout.write('HARNESS-ERROR: %s exceeded %ds wall; no verdict\n' % (what, seconds))
         sys.stdout.flush()
         os._exit(2)
@@ -75,8 +88,8 @@ def run_sweep(seed, cap, workers=16, progress=True, chunk=500):
     calls = runner.BOOT.get('calls', {})
     steps = runner.BOOT.get('steps', {})
     jobs = []
-    for i in range(len(NAMES)):
-        nb = int(max(calls.get(NAMES[i], 0), 2) * 1.05) + 2
+    for i in range(2 * len(NAMES)):      # second half: the warm variants (sweep.build_pair)
+        nb = int(max(calls.get(NAMES[i % len(NAMES)], 0), 2) * 1.05) + 2
         if (cap == 0 or cap > chunk) and nb > chunk:
             # the boundaries of a long callable are split over several jobs (same seeded pair in each)
             for lo in range(1, nb + 1, chunk):
@@ -84,7 +97,7 @@ def run_sweep(seed, cap, workers=16, progress=True, chunk=500):
         else:
             jobs.append((seed, i, cap))
     # heaviest first so that the tail of the batch is short
-    jobs.sort(key=lambda j: -steps.get(NAMES[j[1]], 1))
+    jobs.sort(key=lambda j: -steps.get(NAMES[j[1] % len(NAMES)], 1))
     res = []
     t0 = _perf()
     with ProcessPoolExecutor(workers, mp_context=mp.get_context('fork'), initializer=_init_worker) as ex:
@@ -179,10 +192,19 @@ def report_violations(results, seed, tier, do_minimise=True, max_keys=8, max_rep
             n_known += 1
             continue
         todo.append((k, r, v, cnt))
+    # the plans as found, first: should the wall limit cut the rest short, these are what is reported
+    for k, r, v, cnt in todo[:max_report]:
+        raw = os.path.join(REPLAYS, '%s-%s-%s-%d-%s-%s-raw.json' % (PROPERTY, r['engine'], tier, r['run_seed'] % 10 ** 8,
+                                                                   k[0].replace('.', ''), _slug(k[1])))
+        with open(raw, 'w') as f:
+            json.dump({'property': PROPERTY, 'key': list(k), 'violation': v, 'found': {
+                'verif_seed': seed, 'engine': r['engine'], 'run_index': r['idx'], 'run_seed': r['run_seed'],
+                'runs_in_batch_with_this_key': cnt, 'minimise_trials': 0}, 'plan': r['plan']}, f, indent=1, default=str)
+        _PENDING.append((keystr(k), raw))
     # minimise the first max_keys classes in parallel
     mins = {}
     if do_minimise and todo:
-        jobs = [(t[1]['plan'], t[0]) for t in todo[:max_keys]]
+        jobs = [(t[1]['plan'], t[0], _DEADLINE[0]) for t in todo[:max_keys]]
         with ProcessPoolExecutor(min(8, len(jobs)), mp_context=mp.get_context('fork'), initializer=_init_worker) as ex:
             for (k, r, v, cnt), res in zip(todo[:max_keys], ex.map(_min_job, jobs)):
                 mins[k] = res
@@ -203,6 +225,7 @@ def report_violations(results, seed, tier, do_minimise=True, max_keys=8, max_rep
             json.dump(doc, f, indent=1, default=str)
         rc = subprocess.run([sys.executable, os.path.join(HERE, 'check'), 'replay', path], capture_output=True,
                             text=True, timeout=600)
+        _PENDING[:] = [x for x in _PENDING if x[0] != ks]
         if rc.returncode == 1 and 'VIOLATION' in rc.stdout:
             print('VIOLATION property=%s replay=%s' % (PROPERTY, path))
             print('  %s in %s: %s' % (k[0], k[1], json.dumps(vmin['detail'], default=str)[:600]))
@@ -220,8 +243,8 @@ def _slug(s):
 
 def _min_job(job):
     from . import minimise as mz
-    plan, key = job
-    return mz.minimise(plan, key, 80)
+    plan, key, deadline = job
+    return mz.minimise(plan, key, 80, deadline)
 
 
 def _entries():
@@ -389,7 +412,7 @@ def cmd_batch(tier, argv):
         if a.startswith('--engines='):
             keep = a.split('=')[1].split(',')
             counts = {k: v for k, v in counts.items() if k in keep}
-    wd = _watchdog(900 if tier == 'quick' else 6 * 3600, tier)
+    wd = _watchdog(float(os.environ.get('VERIF_WALL_LIMIT') or (900 if tier == 'quick' else 6 * 3600)), tier)
     print('%s: VERIF_SEED=%d tier=%s runs=%s repo=%s' % (PROPERTY, seed, tier, counts, runner.REPO))
     sys.stdout.flush()
     t0 = _perf()
